@@ -88,3 +88,39 @@ def replay_transfers(inp):
     if attempt(3, 99) is not None:
         bad.append({"history": "pipelined, nothing rejected", "why": ["an exception was raised"]})
     return {"violates": bool(bad), "detail": bad[:3]}
+
+
+def pipelined_reject_with_request_between(inp):
+    """real client and server: pipelined writes of which the server refuses one, then another request on the same
+    client (fstat) that takes the write statuses off the wire, then close(): the refusal must be raised by then, and
+    close() must return"""
+    import threading
+    from .sftp_loop import Loop
+    bad = []
+    for reject in ((), (2,)):
+        loop = Loop(reject_writes=reject)
+        res = {}
+        try:
+            def run():
+                try:
+                    f = loop.sftp.open("/out.bin", "wb")
+                    f.set_pipelined(True)
+                    for i in range(3):
+                        f.write(b"%d" % i * 100)
+                    f.stat()
+                    f.close()
+                    res["outcome"] = "returned"
+                except Exception as e:
+                    res["outcome"] = "raised"
+            th = threading.Thread(target=run, daemon=True)
+            th.start()
+            th.join(8)
+            if th.is_alive():
+                bad.append({"rejected_writes": list(reject), "why": "close() never returned"})
+            elif reject and res.get("outcome") != "raised":
+                bad.append({"rejected_writes": list(reject), "why": "every call returned normally, the refusal was never raised"})
+            elif not reject and res.get("outcome") != "returned":
+                bad.append({"rejected_writes": [], "why": "raised although the server accepted every write"})
+        finally:
+            loop.close()
+    return {"violates": bool(bad), "detail": bad}
